@@ -738,3 +738,71 @@ impl Fam for K12F {
     const TRACKED: bool = false;
     const IDENT: bool = true;
 }
+
+// ---- path: heap-owning key with an UNSIZED borrowed form (`Path`) whose `==` equates values of different
+// ---- byte length; equal keys are distinguishable by how they are written (number of separators = tag) ------
+
+/// `PathBuf` under a newtype (it has no `Display`): "dir<class>" + '/' * (1 + tag) + "x".
+#[derive(Clone, PartialEq, Eq)]
+pub struct PK(pub std::path::PathBuf);
+impl Borrow<std::path::Path> for PK {
+    fn borrow(&self) -> &std::path::Path {
+        self.0.as_path()
+    }
+}
+impl fmt::Debug for PK {
+    fn fmt(&self, f: &mut fmt::Formatter<'_>) -> fmt::Result {
+        fmt::Debug::fmt(&self.0, f)
+    }
+}
+impl fmt::Display for PK {
+    fn fmt(&self, f: &mut fmt::Formatter<'_>) -> fmt::Result {
+        write!(f, "{}", self.0.display())
+    }
+}
+fn pk_text(class: u32, tag: u32) -> String {
+    format!("dir{}{}x", class, "/".repeat(1 + (tag % 5) as usize))
+}
+impl KeyF for PK {
+    type Q = std::path::Path;
+    fn mk(class: u32, tag: u32) -> Self {
+        PK(std::path::PathBuf::from(pk_text(class, tag)))
+    }
+    fn class(&self) -> u32 {
+        let s = self.0.to_string_lossy();
+        s.get(3..).and_then(|t| t.split('/').next()).and_then(|d| d.parse().ok()).unwrap_or(u32::MAX)
+    }
+    fn tag(&self) -> u32 {
+        (self.0.to_string_lossy().matches('/').count() as u32).saturating_sub(1)
+    }
+    fn id(&self) -> u64 {
+        0
+    }
+    fn chk(&self, _: &'static str) -> bool {
+        let s = self.0.to_string_lossy();
+        s.starts_with("dir") && s.ends_with('x')
+    }
+    fn with_q<R>(class: u32, f: impl FnOnce(&std::path::Path) -> R) -> R {
+        // written differently from every stored form: a `.` component and a trailing separator
+        let s = format!("dir{}/./x/", class);
+        f(std::path::Path::new(&s))
+    }
+    fn dbg_render(class: u32, tag: u32) -> String {
+        format!("{:?}", pk_text(class, tag))
+    }
+    fn disp_render(class: u32, tag: u32) -> String {
+        pk_text(class, tag)
+    }
+    fn norm_tag(tag: u32) -> u32 {
+        tag % 5
+    }
+}
+pub struct PathF;
+impl Fam for PathF {
+    type K = PK;
+    type V = Box<u32>;
+    const NAME: &'static str = "path";
+    const TRACKED: bool = false;
+    const IDENT: bool = true;
+    const TAG_MOD: u32 = 4;
+}
